@@ -157,7 +157,7 @@ impl Parser {
     // caught by the catch block, exception passing through the finally block), the function's handler stack is as
     // deep afterwards as before, and a `return` parked by JumpFinally finds an EndFinally at the handler's finally
     // address (otherwise the parked return would never resume).
-    //@fn file=yarel/src/compiler.rs path=Parser::try_statement props=C08,C04
+    //@fn file=yarel/src/compiler.rs path=Parser::try_statement props=C08,C04,C06
     //@  rewrite R21
     //@  requires old(self).comp.coupled(), old(self).comp.try_depth < usize::MAX
     //@  ensures @handlers_balanced_after_try_statement final(self).had_error || final(self).comp.hdepth == old(self).comp.hdepth
